@@ -28,11 +28,15 @@ static void install_fault_handler() {
 // VERIF_HEAP_BUFFERS=1 (sanitizer runs): buffers come from malloc instead, i.e. with the start alignment a caller's
 // buffer really has and with the sanitizer's red zones around them.
 static bool g_heap = false;
+static bool g_misalign = false;
 struct Guarded {
     uint8_t* base = nullptr; size_t maplen = 0; uint8_t* p = nullptr; size_t size = 0; bool heap = false;
     explicit Guarded(size_t sz, size_t align = 1) {
         size = sz;
-        if (g_heap) { heap = true; base = (uint8_t*) malloc(sz ? sz : 1); p = base; memset(base, 0xA5, sz ? sz : 1); return; }
+        // byte buffers at an odd address (marshalled data carries no alignment): the pass that looks for alignment assumptions
+        bool odd = g_misalign && align == 1;
+        if (g_heap && !odd) { heap = true; base = (uint8_t*) malloc(sz ? sz : 1); p = base; memset(base, 0xA5, sz ? sz : 1); return; }
+        if (g_heap) { heap = true; base = (uint8_t*) malloc(sz + 17); p = base; while (((uintptr_t) p & 15) != 1) p++; memset(base, 0xA5, sz + 17); return; }
         size_t page = 4096;
         size_t pages = (sz + align + page - 1) / page + 1;
         maplen = (pages + 1) * page;
@@ -40,6 +44,7 @@ struct Guarded {
         if (base == MAP_FAILED) { perror("mmap"); exit(2); }
         mprotect(base + pages * page, page, PROT_NONE);
         p = base + pages * page - sz;                  // the byte after the buffer is the first byte of the guard page
+        if (odd) p = base + 1;                         // (this pass gives up the guard page behind the buffer)
         memset(base, 0xA5, pages * page);
     }
     ~Guarded() { if (heap) free(base); else if (base) munmap(base, maplen); }
@@ -106,6 +111,23 @@ static JVal protocol_unmarshal(const std::string& kind, bool comp, bool checked,
                 if (!fault && len <= (1u << 20)) { Guarded o(len); GUARDED_CALL(fault, embedded_pairing_wkdibe_secretkey_marshal(o.p, &K.k, comp)); again.assign(o.p, o.p + len); }
             }
         }
+        // the other documented route: the static unmarshalled_length, the count stored by hand, and a target object that last held a key of
+        // the OTHER kind (its signature-support flag is stale) -- the outcome must not depend on the route or on what the object held before
+        if (!fault && rep2 >= 0 && (size_t) rep2 <= n && n >= 1) {
+            WkKey K2; memset(&K2.k, 0, sizeof K2.k); K2.alloc(rep2);
+            K2.k.l = rep2; K2.k.signatures = (in.p[0] == 0);
+            bool ok2 = false, fault2 = false; JVal r2 = JVal::obj();
+            GUARDED_CALL(fault2, ok2 = embedded_pairing_wkdibe_secretkey_unmarshal(&K2.k, in.p, comp, checked));
+            r2.set("ok", (long long) (ok2 ? 1 : 0));
+            if (!fault2 && ok2) {
+                r2.set("obj", dump_key(K2.k, rep2));
+                size_t len = 0; GUARDED_CALL(fault2, len = embedded_pairing_wkdibe_secretkey_get_marshalled_length(&K2.k, comp));
+                r2.set("relen", (long long) len);
+                if (!fault2 && len <= (1u << 20)) { Guarded o(len); GUARDED_CALL(fault2, embedded_pairing_wkdibe_secretkey_marshal(o.p, &K2.k, comp)); r2.set("again", JVal::bytes(o.p, len)); }
+            }
+            r2.set("fault", (long long) (fault2 ? 1 : 0));
+            r.set("route2", r2);
+        }
     } else if (kind == "wk.params") {
         WkParams P; memset(&P.p, 0, sizeof P.p);
         int rep = -2, rep2 = -2;
@@ -122,6 +144,21 @@ static JVal protocol_unmarshal(const std::string& kind, bool comp, bool checked,
                 r.set("relen", (long long) len);
                 if (!fault && len <= (1u << 20)) { Guarded o(len); GUARDED_CALL(fault, embedded_pairing_wkdibe_params_marshal(o.p, &P.p, comp)); again.assign(o.p, o.p + len); }
             }
+        }
+        if (!fault && rep2 >= 0 && (size_t) rep2 <= n && n >= 1) {
+            WkParams P2; memset(&P2.p, 0, sizeof P2.p); P2.alloc(rep2);
+            P2.p.l = rep2; P2.p.signatures = (in.p[0] == 0);
+            bool ok2 = false, fault2 = false; JVal r2 = JVal::obj();
+            GUARDED_CALL(fault2, ok2 = embedded_pairing_wkdibe_params_unmarshal(&P2.p, in.p, comp, checked));
+            r2.set("ok", (long long) (ok2 ? 1 : 0));
+            if (!fault2 && ok2) {
+                r2.set("obj", dump_params(P2.p, rep2));
+                size_t len = 0; GUARDED_CALL(fault2, len = embedded_pairing_wkdibe_params_get_marshalled_length(&P2.p, comp));
+                r2.set("relen", (long long) len);
+                if (!fault2 && len <= (1u << 20)) { Guarded o(len); GUARDED_CALL(fault2, embedded_pairing_wkdibe_params_marshal(o.p, &P2.p, comp)); r2.set("again", JVal::bytes(o.p, len)); }
+            }
+            r2.set("fault", (long long) (fault2 ? 1 : 0));
+            r.set("route2", r2);
         }
     } else {
         // fixed-size kinds: the caller only unmarshals buffers of exactly the marshalled length
@@ -232,6 +269,9 @@ static void run_case(const JVal& in) {
         if (!bytes.empty() && !fault) {
             out.set("checked", protocol_unmarshal(kind, comp, true, bytes.data(), bytes.size()));
             out.set("unchecked", protocol_unmarshal(kind, comp, false, bytes.data(), bytes.size()));
+            g_misalign = true;      // the same protocol with every byte buffer (input and re-marshalled output) at an address = 1 (mod 16)
+            out.set("checked_m", protocol_unmarshal(kind, comp, true, bytes.data(), bytes.size()));
+            g_misalign = false;
         }
     } else if (op == "mar.bytes") {
         std::vector<uint8_t> b = in["bytes"].byte_vec();
